@@ -37,8 +37,29 @@ IN_CSV = "a,b\n1,2\n3,4\n0,5\n"
 # ------------------------------------------------------------------------------------------------
 # generation
 # ------------------------------------------------------------------------------------------------
+# parameter objects as the built-in commands declare them (the same classes, configured by the library, shared by every
+# command object of that class)
+DECLARED = (
+    ({"cls": "String"}, ("mpilot.libraries.eems.fuzzy", "CvtToFuzzy", "Direction")),
+    ({"cls": "String"}, ("mpilot.libraries.eems.fuzzy", "CvtToBinary", "Direction")),
+    ({"cls": "String"}, ("mpilot.libraries.eems.fuzzy", "FuzzySelectedUnion", "TruestOrFalsest")),
+    ({"cls": "String"}, ("mpilot.libraries.eems.csv.io", "EEMSRead", "InFieldName")),
+    ({"cls": "Number"}, ("mpilot.libraries.eems.fuzzy", "CvtToFuzzy", "TrueThreshold")),
+    ({"cls": "Number"}, ("mpilot.libraries.eems.fuzzy", "FuzzySelectedUnion", "NumberToConsider")),
+    ({"cls": "Boolean"}, ("mpilot.libraries.eems.basic", "NormalizeMeanToMid", "IgnoreZeros")),
+    ({"cls": "DataType", "cfg": "csv"}, ("mpilot.libraries.eems.csv.io", "EEMSRead", "DataType")),
+    ({"cls": "DataType", "cfg": "netcdf"}, ("mpilot.libraries.eems.netcdf.io", "EEMSRead", "DataType")),
+    ({"cls": "Path", "must_exist": True}, ("mpilot.libraries.eems.csv.io", "EEMSRead", "InFileName")),
+    ({"cls": "Path", "must_exist": False}, ("mpilot.libraries.eems.csv.io", "EEMSWrite", "OutFileName")),
+    ({"cls": "List", "of": {"cls": "Number"}}, ("mpilot.libraries.eems.fuzzy", "FuzzyWeightedUnion", "Weights")),
+)
+
+
 def _gen_param(rng, depth=0):
     r = rng.random()
+    if depth == 0 and rng.random() < 0.2:
+        spec, where = rng.choice(DECLARED)
+        return dict(copy.deepcopy(spec), declared=list(where))
     if r < 0.14:
         return {"cls": "Number"}
     if r < 0.24:
@@ -62,7 +83,7 @@ def _gen_param(rng, depth=0):
     return {"cls": "Number"}
 
 
-STRS = ("inf", "-Infinity", "1e999", "1e400", "12", "-3", "5.4", "+7", "0", "1", "2.0", "9007199254740993", "-0.0", "007", "true", "False", "TRUE", "maybe",
+STRS = ("HighToLow", "LowToHigh", "Truest", "Falsest", "inf", "-Infinity", "1e999", "1e400", "12", "-3", "5.4", "+7", "0", "1", "2.0", "9007199254740993", "-0.0", "007", "true", "False", "TRUE", "maybe",
         "abc", "", "'elev'", '"x"', "''a''", '"\'q\'"', "in.csv", "nofile.csv", "relwork_x.csv", "relwork/in.csv", "/sim/work_in.csv",
         WORK + "/in.csv", WORK + "/nofile.csv", "sub/x.csv", "Float", "Integer", "Positive Float", "Fuzzy", "Complex",
         "r0", "f0", "s0", "pv", "nosuch", "1e3", " 4 ", "0x10", "nan", "1_000")
@@ -192,6 +213,14 @@ def generate(prop, rng, index, tier):
 # ------------------------------------------------------------------------------------------------
 def build_param(spec, P):
     c = spec["cls"]
+    if spec.get("declared"):
+        import importlib
+        mod, cls, pname = spec["declared"]
+        param = getattr(importlib.import_module(mod), cls).inputs[pname]
+        want = {"Number": P.NumberParameter, "String": P.StringParameter, "Boolean": P.BooleanParameter,
+                "DataType": P.DataTypeParameter, "Path": P.PathParameter, "List": P.ListParameter}[c]
+        if isinstance(param, want) and (c != "String" or not isinstance(param, P.PathParameter)):
+            return param
     if c == "Number":
         return P.NumberParameter()
     if c == "String":
